@@ -5,20 +5,20 @@ PLAN = {
     "quick": [
         replays("C18"),
         replays("C18_addr", flavour="plain"),
-        tape("C18", 6000, size=300),
+        tape("C18", 3000, size=300),
         tape("C18_addr", 120000, size=120, flavour="plain"),
     ],
     "thorough": [
         replays("C18"),
         replays("C18_addr", flavour="plain"),
-        tape("C18", 120000, size=300),
+        tape("C18", 60000, size=300),
         tape("C18_addr", 4000000, size=120, flavour="plain"),
     ],
-    # floors are fractions of ALL cases of the run; the graph classes come from the C18 stage only (about 5% of the quick
-    # and 3% of the thorough cases), so they are set to roughly a third of what that stage normally yields
+    # floors are fractions of ALL cases of the run; the graph classes come from the C18 stage only (about 2.5% of the quick
+    # and 1.5% of the thorough cases), so they are set to roughly a third of what that stage normally yields
     "class_floors": {
-        "parts(size>=2)>=2": 0.006, "shape:cycle": 0.002, "shape:clique": 0.002, "shape:star": 0.002, "shape:chain": 0.002, "removal-splits-a-part": 0.005,
-        "mode=free": 0.003, "two-analyser-models": 0.001, "family:cantor-wrap": 0.2, "family:equal-xor": 0.03, "family:equal-low32": 0.03, "family:equal-sum": 0.03,
+        "parts(size>=2)>=2": 0.003, "shape:cycle": 0.001, "shape:clique": 0.001, "shape:star": 0.001, "shape:chain": 0.001, "removal-splits-a-part": 0.0025,
+        "mode=free": 0.0015, "two-analyser-models": 0.0005, "history:edit": 0.003, "history:rewire": 0.0005, "history:fresh-model": 0.0005, "history:addresses-recycled": 0.5, "family:cantor-wrap": 0.2, "family:equal-xor": 0.03, "family:equal-low32": 0.03, "family:equal-sum": 0.03,
     },
     "assumptions": [
         "class floors are computed over the cases of both harnesses together (graph classes come from C18 only, address families from C18_addr only)",
@@ -28,9 +28,10 @@ CLAIM = {
     "engine": "rapidcheck-tape",
     "technique": "property-based testing against a reference model (union-find reachability over the harness's own edge set), plus an allocator-owning harness that places the queried objects at constructively solved colliding addresses",
     "text": "Domain 1: thousands of generated connection graphs (chains, stars, cycles, cliques, trees, random parts, isolated variables, temporary and removed equivalences) built through the API; every ordered pair asked through "
-            "Variable::hasEquivalentVariable(v,true) in three phases and through AnalyserModel::areEquivalentVariables of really analysed models in tape-chosen orders with repetition and interleaving. Domain 2: a plain-build harness replaces "
+            "Variable::hasEquivalentVariable(v,true) in three phases and through AnalyserModel::areEquivalentVariables of really analysed models in tape-chosen orders with repetition and interleaving; then the same Analyser is re-used for 1-3 further analyses after tape-chosen edits of the equivalence graph (toggle, rewire, freshly built model, unchanged) and each new analyser model "
+            "is asked all pairs again and its verdict compared with a fresh Analyser's. Domain 2: a plain-build harness replaces "
             "global operator new/delete, maps pages with MAP_FIXED_NOREPLACE and puts the Variable objects of two pairs at addresses from families that defeat lossy pair keys (equal sum/xor/difference/low-32/linear combination/page, and "
-            "64-bit wrap-around collisions of the Cantor pairing solved in closed form), then analyses a valid model on those objects and asks every pair. Finds wrong cached answers end to end without any hook in the library; "
+            "64-bit wrap-around collisions of the Cantor pairing solved in closed form), then analyses a valid model on those objects and asks every pair; afterwards the model is released, new objects are placed at the same addresses with another connection scenario and analysed by the same Analyser. Finds wrong cached answers end to end without any hook in the library; "
             "cannot show absence, and a lossy key outside the constructed families would go unnoticed.",
     "note": "Domain 2 runs unsanitised (the allocator is ours) and assumes the x86-64 Linux user address-space layout; the modelled key formula only aims the generator, the verdict comes from the real function against the reference.",
 }
